@@ -49,7 +49,11 @@ class G:
 
     # ------------------------------------------------------------------ primitives
     def p(self, prob: float) -> bool:
-        return self.r.random() < prob
+        return self.u() < prob
+
+    def u(self) -> float:
+        """uniform in [0, 1) - drawn as two small integers: Hypothesis' float draws and its integer draws over ranges above ~500 are biased towards small values"""
+        return (self.r.randint(0, 99) * 100 + self.r.randint(0, 99)) / 10000
 
     def pick(self, seq: Any) -> Any:
         return seq[self.r.randint(0, len(seq) - 1)]
@@ -59,7 +63,7 @@ class G:
 
     def few(self) -> int:
         """0,1,2,3 with decreasing probability."""
-        x = self.r.random()
+        x = self.u()
         return 0 if x < 0.45 else 1 if x < 0.75 else 2 if x < 0.92 else 3
 
     def chars(self, alphabet: Any, lo: int, hi: int) -> str:
@@ -171,7 +175,7 @@ class G:
         return ['CURRENCY', self.currency_text()]
 
     def number_text(self) -> str:
-        x = self.r.random()
+        x = self.u()
         if x < 0.5:
             s = str(self.n(0, 9999))
         elif x < 0.6:
@@ -180,7 +184,7 @@ class G:
             s = self.chars(DIG, 1, 12)
         else:
             s = str(self.n(0, 99999))
-        y = self.r.random()
+        y = self.u()
         if y < 0.45:
             s += '.' + self.chars(DIG, 1, 4 if self.p(0.9) else 10)
         elif y < 0.5:
@@ -235,7 +239,7 @@ class G:
         return [self.ws()]
 
     def atom(self, depth: int) -> list[Piece]:
-        x = self.r.random()
+        x = self.u()
         if depth <= 0 or x < 0.6:
             return [self.number()]
         if x < 0.8:
@@ -305,7 +309,7 @@ class G:
         return out
 
     def cost_component(self) -> list[Piece]:
-        x = self.r.random()
+        x = self.u()
         if x < 0.3:
             return self.amount()
         if x < 0.42:
@@ -531,10 +535,10 @@ class G:
     def trivia(self) -> list[list[Piece]]:
         """lines between directives: blank, whitespace-only, comment blocks of both classes"""
         out: list[list[Piece]] = []
-        x = self.r.random()
+        x = self.u()
         k = 0 if x > self.c.blank + self.c.comments else 1 if x > 0.25 else self.n(1, 3)
         for _ in range(k):
-            y = self.r.random()
+            y = self.u()
             if y < self.c.comments:
                 out.append([self.comment_block(self.p(0.3))])
             elif y < self.c.comments + 0.12:
@@ -571,10 +575,6 @@ class G:
         for line in lines:
             out += line
             nl = self.nl()
-            if line and line[-1][0] == 'IGNORED' and nl.startswith('\r'):
-                # IGNORED is /.*/ : it swallows the \r of a following \r\n
-                line[-1][1] += nl[:-1]
-                nl = '\n'
             out.append(['_NEWLINE', nl])
         return out
 
